@@ -91,6 +91,17 @@ func restoreBLSKeys() {
 // newCryptoEnv builds a fresh environment (fresh configs and Base instances) for n replicas;
 // private keys are memoised per scheme for the life of the process (key generation is the slow part).
 func newCryptoEnv(scheme string, n int, opts ...core.RuntimeOption) *cryptoEnv {
+	return newCryptoEnvPop(scheme, n, nil, opts...)
+}
+
+// popFault says what the OTHER replicas hold as replica id's BLS proof of possession:
+// "bad" (bytes that are no curve point), "none" (no proof), "swap<j>" (replica j's proof).
+type popFault struct {
+	id   int
+	kind string
+}
+
+func newCryptoEnvPop(scheme string, n int, faults []popFault, opts ...core.RuntimeOption) *cryptoEnv {
 	ks := keyCache[scheme]
 	for len(ks) < n {
 		ks = append(ks, genKey(scheme))
@@ -106,12 +117,32 @@ func newCryptoEnv(scheme string, n int, opts ...core.RuntimeOption) *cryptoEnv {
 		}
 		e.bases = append(e.bases, b)
 	}
-	for _, cfg := range e.cfgs {
+	for i, cfg := range e.cfgs {
 		for j := 1; j <= n; j++ {
+			md := e.cfgs[j-1].ConnectionMetadata()
+			for _, pf := range faults {
+				if pf.id != j || i+1 == j {
+					continue
+				}
+				cp := map[string]string{}
+				for k, v := range md {
+					switch {
+					case pf.kind == "none":
+					case pf.kind == "bad":
+						cp[k] = strings.Repeat("\xff", len(v))
+					case strings.HasPrefix(pf.kind, "swap"):
+						var o int
+						if _, err := fmt.Sscanf(pf.kind, "swap%d", &o); err == nil && o >= 1 && o <= n {
+							cp[k] = e.cfgs[o-1].ConnectionMetadata()[k]
+						}
+					}
+				}
+				md = cp
+			}
 			cfg.AddReplica(&hotstuff.ReplicaInfo{
 				ID:       hotstuff.ID(j),
 				PubKey:   ks[j-1].Public(),
-				Metadata: e.cfgs[j-1].ConnectionMetadata(),
+				Metadata: md,
 			})
 		}
 	}
